@@ -17,13 +17,16 @@ CONSTANTS Tier, MaxSize, Export
 \* elements / keys: pairs of Equal but distinguishable representatives
 \* (1 ~ 1.0, [1] ~ [1.0], <<1,2>> ~ <<2,1>>, 0.0 ~ -0.0) among unequal values
 \* Tier 3: values a hair apart - 0.3 and 0.1 + 0.2 (neighbouring doubles), two
-\* dates inside one second - must be kept apart as reliably as Equal ones are merged
+\* dates one second apart, one of them below the year 1000 - must be kept apart
+\* as reliably as Equal ones are merged.  (Two dates INSIDE one second are not
+\* in the pool: whether they are equal is not named by the statement, see
+\* Val.tla ResolutionOnly; they are judged on consistency in Val_Trace.)
 E == IF Tier = 1
      THEN <<VInt(1), VDec(1, 1), VInt(2), VStr(<<97>>), VBool(1),
             VList(<<VInt(1)>>), VList(<<VDec(1, 1)>>), VStr(<<49>>)>>
      ELSE IF Tier = 3
      THEN <<VFine(1, <<4595, 5284, 3195, 5404>>, 54), VFine(1, <<1149, 8821, 798, 1351>>, 52),
-            VDate(<<2024, 1, 1, 0, 0, 0, 0>>), VDate(<<2024, 1, 1, 0, 0, 0, 444000>>),
+            VDate(<<999, 12, 31, 23, 59, 59, 0>>), VDate(<<999, 12, 31, 23, 59, 58, 0>>),
             VInt(1), VDec(1, 1), VList(<<VFine(1, <<4595, 5284, 3195, 5404>>, 54)>>)>>
      ELSE <<VInt(1), VDec(1, 1), VInt(2), VStr(<<97>>), VBool(1), VBool(0),
             VList(<<VInt(1)>>), VList(<<VDec(1, 1)>>), VStr(<<49>>),
